@@ -497,6 +497,48 @@ contract(SMF + ".close", params=dict(self=SMFT), requires=["inv(self)"],
          loops={0: dict(invariant=[all_closed("it"), "fs == old(fs)", "fh_path == old(fh_path)"])},
          modifies_ghost=["fh_state", "fh_pos"], no_runtime=True, props=["C19"])
 
+# ---- release: the array's files are gone, nobody else's file is touched ---------------------------------------------------
+def _meta_path(E, env, who="self"):
+    return z3.Concat(_afld(E, env, A_PATH, who), z3.StringVal("_meta"))
+
+
+def chunks_gone(upto_src=None, who="self"):
+    """none of the chunk files 0 .. upto-1 (default: all file_num of them) exists"""
+    def f(E, env):
+        base, fn = _afld(E, env, A_PATH, who), _afld(E, env, A_FN, who)
+        lim = fn if upto_src is None else z3_int(E.spec_eval(upto_src, env, old=True))
+        k = z3.Int("rk")
+        fsn = _named(E, E.ghostv["fs"].t)
+        return SV(z3.ForAll([k], Imp(And(0 <= k, k < lim, k < fn), OBY.is_none(z3.Select(fsn, cpath(base, k)))),
+                            patterns=[cpath(base, k)]), TBool)
+    return f
+
+
+def meta_gone(E, env):
+    return SV(OBY.is_none(z3.Select(E.ghostv["fs"].t, _meta_path(E, env))), TBool)
+
+
+def release_frame(E, env):
+    """a file that is neither the meta file nor one of the array's chunk files is as it was at entry; a chunk file that still
+    exists is as it was at entry"""
+    pre_env, pre_heap, pre_ghost = E.old_stack[-1]
+    base, fn = _afld(E, env, A_PATH), _afld(E, env, A_FN)
+    pth = z3.String("rl_p")
+    newfs, oldfs = _named(E, E.ghostv["fs"].t), pre_ghost["fs"].t
+    is_chunk = And(0 <= cidx(base, pth), cidx(base, pth) < fn, pth == cpath(base, cidx(base, pth)))
+    return SV(z3.ForAll([pth], Imp(And(Not(is_chunk), pth != _meta_path(E, env)), z3.Select(newfs, pth) == z3.Select(oldfs, pth)),
+                        patterns=[z3.Select(newfs, pth)]), TBool)
+
+
+contract(SMF + ".release", params=dict(self=SMFT), requires=["inv(self)"],
+         raises={"FileNotFoundError": dict(when="(self.__local_path + '_meta') not in old(fs)", iff=True)},
+         raise_ensures={"FileNotFoundError": ["fs == old(fs)", all_closed(), "fh_path == old(fh_path)"]},
+         ensures=[all_closed(), meta_gone, chunks_gone(), release_frame, "fh_path == old(fh_path)"] + SCALARS_SAME,
+         loops={0: dict(invariant=[all_closed(), meta_gone, chunks_gone("it"), release_frame, "fh_path == old(fh_path)"],
+                        hints=[("cidx_def", ["self.__local_path", "it"]), ("cpath_not_meta", ["self.__local_path", "it"])])},
+         lemmas=["cpath_inj", "cpath_not_meta", "cidx_def"], reveal=["cpath"],
+         modifies_ghost=FGHOST, no_runtime=True, props=["C19"])
+
 # collections.abc.Sequence.__iter__ as documented (B5), restated as ghost code over __getitem__ and verified
 ALL_ITEMS = APK % ("0", "1", "self.__array_len")
 contract(SMF + ".__iter__", params=dict(self=SMFT), returns=TList(TBytes), modifies=["self"], requires=AINV,
@@ -645,6 +687,41 @@ contract(SPF + ".close", params=dict(self=SPFT), modifies=["self"], requires=["i
          ensures=["fs == old(fs)", "fh_path == old(fh_path)", "self.__local_path == old(self.__local_path)"],
          modifies_ghost=["fh_state", "fh_pos"], no_runtime=True, props=["C19"])
 
+# release of the wrapper: whatever happens, the wrapper ends up closed; the files of the array it wrapped are gone
+def _sv(E, env, src):
+    return E.to_sv(E.spec_eval(src, env, old=True)).t
+
+
+def chunks_gone_of(base_src, fn_src):
+    def f(E, env):
+        base, fn = _sv(E, env, base_src), z3_int(E.spec_eval(fn_src, env, old=True))
+        k = z3.Int("rk")
+        fsn = _named(E, E.ghostv["fs"].t)
+        return SV(z3.ForAll([k], Imp(And(0 <= k, k < fn), OBY.is_none(z3.Select(fsn, cpath(base, k)))), patterns=[cpath(base, k)]), TBool)
+    return f
+
+
+def release_frame_of(base_src, fn_src):
+    def f(E, env):
+        pre_env, pre_heap, pre_ghost = E.old_stack[-1]
+        base, fn = _sv(E, env, base_src), z3_int(E.spec_eval(fn_src, env, old=True))
+        pth = z3.String("rl_p")
+        newfs, oldfs = _named(E, E.ghostv["fs"].t), pre_ghost["fs"].t
+        is_chunk = And(0 <= cidx(base, pth), cidx(base, pth) < fn, pth == cpath(base, cidx(base, pth)))
+        return SV(z3.ForAll([pth], Imp(And(Not(is_chunk), pth != z3.Concat(base, z3.StringVal("_meta"))),
+                                       z3.Select(newfs, pth) == z3.Select(oldfs, pth)), patterns=[z3.Select(newfs, pth)]), TBool)
+    return f
+
+
+contract(SPF + ".release", params=dict(self=SPFT), modifies=["self"], requires=["inv(%s)" % UP, "g_base == %s.__local_path" % UP,
+                                                                                "g_fn == %s.__file_num" % UP],
+         ghost=dict(g_base=TStr, g_fn=TInt), becomes={"self": SPF + "@closed"},
+         raises={"FileNotFoundError": dict(when="(g_base + '_meta') not in old(fs)", iff=True)},
+         raise_ensures={"FileNotFoundError": ["fs == old(fs)", "fh_path == old(fh_path)"]},
+         ensures=["(g_base + '_meta') not in fs", chunks_gone_of("g_base", "g_fn"), release_frame_of("g_base", "g_fn"),
+                  "fh_path == old(fh_path)", "self.__local_path == old(self.__local_path)"],
+         modifies_ghost=FGHOST, no_runtime=True, props=["C19"])
+
 # ---- derived operations of the interface: deletion = zero fill, clear ---------------------------------------------------------
 ZI = "zeros(%s.__item_size)" % UP
 contract(IFA + "._set_all_zeros_by_index", params=dict(self=SPFT, index=TInt), modifies=["self"], requires=U_AINV,
@@ -704,6 +781,8 @@ for nm_, ps_ in (("__delitem__", dict(i=TInt)), ("clear", {}), ("_set_all_zeros_
     contract(IFA + "." + nm_ + "#closed", params=dict(self=SPFC, **ps_), no_runtime=True, props=["C19"], **CLOSED_RAISES)
 contract(SPF + ".close#closed", params=dict(self=SPFC), modifies=["self"], becomes={"self": SPF + "@closed"},
          ensures=NOFX + ["self.__local_path == old(self.__local_path)"], no_runtime=True, props=["C19"])
+contract(SPF + ".release#closed", params=dict(self=SPFC), modifies=["self"], becomes={"self": SPF + "@closed"},
+         ensures=NOFX + ["self.__local_path == old(self.__local_path)"], no_runtime=True, props=["C19"])      # releasing twice is harmless
 
 # ---- client lemmas: the history clauses of C19 over the contracts above ---------------------------------------------------
 GA = "data_persistence/persistent_array.py"
